@@ -8,7 +8,8 @@
 From Coq Require Import String List ZArith Bool.
 Require Import Blots.Num Blots.gen.Builtins Blots.Ast Blots.Value Blots.Outcome Blots.Json.
 Require Import Blots.JsonText.
-Require Import Blots.proofs.ValueInd Blots.proofs.JsonMaps Blots.proofs.JsonRT Blots.proofs.JsonEcho Blots.proofs.JsonTextRT.
+Require Import Blots.proofs.ValueInd Blots.proofs.JsonMaps Blots.proofs.JsonRT Blots.proofs.JsonEcho Blots.proofs.JsonTextRT
+  Blots.proofs.JsonTextDoc Blots.proofs.JsonTextCli.
 Import ListNotations.
 
 (* to_value (from_value v) = v structurally (numbers bit for bit, strings and keys byte for byte,
@@ -145,15 +146,43 @@ Check C06_number_text_roundtrip : forall fmt_pieces float_of_tok,
   parse_number float_of_tok (render_tok (tok_of_jnumber fmt_pieces n) ++ rest) = Some (n, rest).
 Print Assumptions C06_number_text_roundtrip.
 
-(* the statement for whole documents (kept as a definition until proved): under the same two
-   hypotheses every document with in-range numbers and at most 127 nested containers is read
-   back from its printed text *)
-Definition C06_json_text_roundtrip_full : Prop :=
-  forall fmt_pieces float_of_tok,
+(* json_text_roundtrip: serde_json::from_str (serde_json::to_string j) = j as a document, under the
+   two library hypotheses on numbers, for every document with in-range numbers and at most 127
+   nested containers (serde_json's recursion limit; see C06_recursion_limit_refuted) *)
+Theorem C06_json_text_roundtrip : forall fmt_pieces float_of_tok,
   (forall x, is_finite x = true -> tok_wf (fmt_pieces x) = true /\ tok_is_float (fmt_pieces x) = true) ->
   (forall x, is_finite x = true -> float_of_tok (fmt_pieces x) = Some x) ->
   forall j, json_text_ok j = true -> (jdepth j <= 127)%nat ->
   json_from_str float_of_tok (jprint fmt_pieces j) = Some j.
+Proof. exact json_text_roundtrip. Qed.
+Check C06_json_text_roundtrip : forall fmt_pieces float_of_tok,
+  (forall x, is_finite x = true -> tok_wf (fmt_pieces x) = true /\ tok_is_float (fmt_pieces x) = true) ->
+  (forall x, is_finite x = true -> float_of_tok (fmt_pieces x) = Some x) ->
+  forall j, json_text_ok j = true -> (jdepth j <= 127)%nat ->
+  json_from_str float_of_tok (jprint fmt_pieces j) = Some j.
+Print Assumptions C06_json_text_roundtrip.
+
+(* the property's first sentence end to end in the model: a data value output by one run, printed
+   as JSON text, parsed, built into serde_json's map, turned into the inputs of a second run, is
+   read there as a value .== to the original, bit-exact on numbers, byte-exact on strings/keys *)
+Theorem C06_cli_text_out_in : forall pfs pbody emit nameof fmt_pieces float_of_tok,
+  (forall x, is_finite x = true -> tok_wf (fmt_pieces x) = true /\ tok_is_float (fmt_pieces x) = true) ->
+  (forall x, is_finite x = true -> float_of_tok (fmt_pieces x) = Some x) ->
+  forall v name,
+  json_data v = true -> value_no_reserved pfs v = true ->
+  (jdepth (write_outputs [(name, sv_of v)]) <= 127)%nat ->
+  cli_text_out_in pfs pbody emit nameof fmt_pieces float_of_tok v name = Ok (vsort v)
+  /\ equals (vsort v) v = true /\ same_data (vsort v) v = true.
+Proof. exact cli_text_out_in_roundtrip. Qed.
+Check C06_cli_text_out_in : forall pfs pbody emit nameof fmt_pieces float_of_tok,
+  (forall x, is_finite x = true -> tok_wf (fmt_pieces x) = true /\ tok_is_float (fmt_pieces x) = true) ->
+  (forall x, is_finite x = true -> float_of_tok (fmt_pieces x) = Some x) ->
+  forall v name,
+  json_data v = true -> value_no_reserved pfs v = true ->
+  (jdepth (write_outputs [(name, sv_of v)]) <= 127)%nat ->
+  cli_text_out_in pfs pbody emit nameof fmt_pieces float_of_tok v name = Ok (vsort v)
+  /\ equals (vsort v) v = true /\ same_data (vsort v) v = true.
+Print Assumptions C06_cli_text_out_in.
 
 (* ---- refutations at the text level (known findings C06-F17, C06-F31) ---- *)
 (* F17: the number conversion shipped in /repo reads 9007199254740991.0 (= 2^53-1, a double) as
@@ -219,3 +248,19 @@ Proof. vm_compute. reflexivity. Qed.
 Example ex_nums_ok_extremes :
   jnum_ok (JPosInt (2 ^ 64 - 1)) = true /\ jnum_ok (JNegInt (- 2 ^ 63)) = true.
 Proof. vm_compute. split; reflexivity. Qed.
+(* the library hypotheses of the text-level theorems hold pointwise where they should: 0.1 is
+   printed as 0.1 (a well-formed float token) and even the shipped conversion reads it back *)
+Definition tok_0_1 : numtok := NumTok false [0%Z] (Some [1%Z]) None.
+Example ex_number_hypotheses_at_0_1 :
+  render_tok tok_0_1 = "0.1" /\ tok_wf tok_0_1 = true /\ tok_is_float tok_0_1 = true /\
+  sj_float_of_tok tok_0_1 = Some (num_of_bits 0x3fb999999999999a).
+Proof. vm_compute. repeat split; reflexivity. Qed.
+Example ex_text_roundtrip_concrete :
+  json_from_str sj_float_of_tok
+    (jprint (fun _ => tok_0_1) (JObj [("k", JArr [JNum (JPosInt 18446744073709551615); JNum (JNegInt (-9223372036854775808));
+                                                   JStr (String (chr 1) "q""\"); JNum (JFloat (num_of_bits 0x3fb999999999999a))]);
+                                      ("k", JNull)]))
+  = Some (JObj [("k", JArr [JNum (JPosInt 18446744073709551615); JNum (JNegInt (-9223372036854775808));
+                            JStr (String (chr 1) "q""\"); JNum (JFloat (num_of_bits 0x3fb999999999999a))]);
+                ("k", JNull)]).
+Proof. vm_compute. reflexivity. Qed.
